@@ -444,6 +444,8 @@ class Parser:
             elif self.peek()[1] == '(' and e[0] in ('path',):
                 self.next()
                 e = ('call', e[1], self.parse_args())
+            elif self.accept('?'):
+                e = ('try', e)
             else:
                 return e
 
@@ -1162,6 +1164,20 @@ class Emitter:
             return self.target_roots(t[1])
         return [None]
 
+    def panicking(self, e):
+        """is `e` (at its root) a call that can panic: `expect` / `unwrap`, or a translated function recorded as panicking"""
+        if not (isinstance(e, tuple) and e):
+            return False
+        if e[0] == 'mcall' and e[2] in ('expect', 'unwrap'):
+            return True
+        if e[0] == 'call':
+            sig = self.fns.get(e[1][-1], ())
+            return len(sig) > 7 and bool(sig[7])
+        if e[0] == 'mcall' and getattr(self, 'uint_mode', False) is True:
+            sig = self.fns.get('Uint::' + e[2], ())
+            return len(sig) > 7 and bool(sig[7])
+        return False
+
     def slice_place(self, t, env):
         """`xs` or `xs[a..b]` / `xs[..b]` / `xs[a..]` with `xs` a `&mut [u64]` variable"""
         if t[0] == 'index' and t[2][0] in ('range', 'rangeto', 'rangefrom'):
@@ -1551,6 +1567,46 @@ class Emitter:
             env[t] = te
             body, tb = self.stmts(chain[1] + rest, env, exp, result)
             return 'let %s := %s\n  %s' % (t, se, body), tb
+        if k in ('let', 'assign', 'return', 'tail', 'expr', 'expr_nosemi') and getattr(self, 'panics', False):
+            # calls that can panic (and `?`) are bound by their own `let` first, in evaluation order
+            pre = []
+            pos = {'let': 3, 'assign': 2}.get(k, 1)
+
+            def hoist(e, root):
+                if isinstance(e, list):
+                    return [hoist(x, False) for x in e]
+                if not isinstance(e, tuple) or not e:
+                    return e
+                if e[0] in ('closure', 'block', 'if', 'iflet', 'ifsome', 'match'):
+                    return e
+                e = tuple(hoist(x, False) for x in e)
+                if not root and (self.panicking(e) or e[0] == 'try'):
+                    self.tmp = getattr(self, 'tmp', 0) + 1
+                    t = 'pv%d' % self.tmp
+                    pre.append(('let', ('pid', t), None, e))
+                    return ('path', [t])
+                return e
+            if s[pos] is not None:
+                ne = hoist(s[pos], (k == 'let' and s[1][0] == 'pid') or self.mut_call(s) is not None)
+                if pre:
+                    return self.stmts(pre + [s[:pos] + (ne,) + s[pos + 1:]] + rest, env, exp, result)
+        if k == 'let' and s[1][0] == 'pid' and s[3][0] == 'try':
+            # `let x = opt?;` in a function returning `Option`: `None` is returned
+            so, to = self.expr(s[3][1], env, None)
+            if not (isinstance(to, tuple) and to[0] == 'option') or (isinstance(result, tuple) and result[0] == 'loop'):
+                raise TranslateError('unsupported use of `?`')
+            env[s[1][1]] = to[1]
+            body, tb = self.stmts(rest, env, exp, result)
+            return 'match %s with\n  | none => %s\n  | some %s => (\n  %s)' % (so, self.wrap_ret('none', env), lean_ident(s[1][1]), body), tb
+        if k == 'let' and s[1][0] == 'pid' and self.panicking(s[3]) and not (s[3][0] == 'mcall' and s[3][2] in ('expect', 'unwrap')) \
+                and self.mut_call(s) is None:
+            # `let x = f(…);` where `f` can panic
+            if isinstance(result, tuple) and result[0] == 'loop':
+                raise TranslateError('call of a panicking function inside a loop')
+            so, to = self.expr(s[3], env, None)
+            env[s[1][1]] = to[1] if isinstance(to, tuple) and to[0] == 'option' else to
+            body, tb = self.stmts(rest, env, exp, result)
+            return 'match %s with\n  | none => none\n  | some %s => (\n  %s)' % (so, lean_ident(s[1][1]), body), tb
         if k == 'let' and s[1][0] == 'pid' and s[3][0] == 'mcall' and s[3][2] in ('expect', 'unwrap'):
             # `let x = opt.expect("…");`: `None` panics
             if not self.panics or (isinstance(result, tuple) and result[0] == 'loop'):
@@ -2336,6 +2392,19 @@ def knuth_items(repo):
             {'file': a + 'mod.rs', 'fn': 'div', 'lean': 'div', 'group': 'knuth'}]
 
 
+def uint_div_items(repo):
+    """the `Uint` division surface (src/div.rs) over the generated `algorithms::div`"""
+    out = []
+    for f, fn in (('cmp.rs', 'is_zero'), ('div.rs', 'div_rem'), ('div.rs', 'wrapping_div'), ('div.rs', 'wrapping_rem'), ('div.rs', 'checked_div'),
+                  ('div.rs', 'checked_rem'), ('div.rs', 'div_ceil'), ('special.rs', 'checked_next_multiple_of'),
+                  ('special.rs', 'next_multiple_of')):
+        out.append({'file': repo + '/src/' + f, 'fn': fn, 'lean': 'uint_' + fn, 'key': 'Uint::' + fn, 'self_ty': 'uint',
+                    'uint': True, 'group': 'uintdiv', 'externs': UINT_EXTERNS,
+                    # `Div::div` / `Rem::rem` for Uint forward to wrapping_div / wrapping_rem (impl_bin_op! in src/div.rs)
+                    'aliases': {'wrapping_div': ['Uint::div'], 'wrapping_rem': ['Uint::rem']}.get(fn, [])})
+    return out
+
+
 GROUPS = [('core', 'Words', ('Ruint.Gen.Prelude',)),
           ('kernels', 'WordsKernels', ('Ruint.Gen.Words',)),
           ('uint', 'WordsUint', ('Ruint.Gen.Words', 'Ruint.Gen.WordsKernels', 'Ruint.Base', 'Ruint.Model.MulKernels')),
@@ -2345,6 +2414,7 @@ GROUPS = [('core', 'Words', ('Ruint.Gen.Prelude',)),
           ('div', 'WordsDiv', ('Ruint.Gen.Words',)),
           ('divloops', 'WordsDivLoops', ('Ruint.Gen.WordsDiv',)),
           ('knuth', 'WordsKnuth', ('Ruint.Gen.WordsDivLoops', 'Ruint.Gen.WordsKernels')),
+          ('uintdiv', 'WordsUintDiv', ('Ruint.Gen.WordsUint', 'Ruint.Gen.WordsKnuth')),
           ('value', 'WordsValue', ('Ruint.Gen.Prelude', 'Ruint.Model.Modular'))]
 
 
@@ -2359,6 +2429,7 @@ def translate_all(repo):
     items += redc_loop_items(repo)
     items += div_loop_items(repo)
     items += knuth_items(repo)
+    items += uint_div_items(repo)
     items += value_items(repo)
     try:
         items += lehmer_items(repo)
